@@ -17,7 +17,7 @@ Known == {"Reset", "TPutBegin", "TPutEnd", "TPutAck", "TTake", "TCopied", "CopyF
           "CPauseEnd", "TPauseBegin", "TPauseEnd", "CPutBegin", "CRecv", "KRecv", "KSample", "IFStart", "IFPush",
           "IFPop", "TouchCalc", "FinDone", "ReqStart", "ReqExiting", "ReqClamp", "DefStart", "DefPush", "DefPop",
           "ScanIF", "ScanDef", "ScanTimedOut", "KSub", "KIdent", "KEval", "KRdyBegin", "KRdyEnd", "KRdyDone", "Send", "KCmd",
-          "HRecv", "HPubAck", "HStatsT", "HStatsC", "HStatsK", "HEnd", "TExit", "HStatsTopics"}
+          "HRecv", "HPubAck", "HStatsT", "HStatsC", "HStatsK", "HEnd", "TExit", "HStatsTopics", "QSDone"}
 
 TraceInit == Init /\ l = 1 /\ TLCSet(1, 1) /\ TLCSet(2, <<>>)
 
@@ -33,7 +33,8 @@ TNext ==
   \/ IsEvent("TPutBegin") /\ APutBegin(E.t, E.id, [key |-> E.key, crc |-> E.crc, len |-> E.len, ts |-> E.ts, def |-> E.def, acked |-> FALSE])
   \/ IsEvent("TPutEnd") /\ APutEnd(E.t, E.id, E.ok)
   \/ IsEvent("TPutAck") /\ APutAck(E.t, ToSet(E.ids))
-  \/ IsEvent("TTake") /\ ATake(E.t, E.id, ToSet(E.chans))
+  \/ IsEvent("TTake") /\ ATake(E.t, E.id, ToSet(E.chans), E.def)
+  \/ IsEvent("QSDone") /\ AQSDone(E.c, E.t)
   \/ IsEvent("TCopied") /\ ACopied(E.t, E.id)
   \/ IsEvent("CopyFail") /\ ACopyFail(E.c, E.id)
   \/ IsEvent("CMapAdd") /\ ACMapAdd(E.c, E.t)
@@ -94,6 +95,9 @@ About ==
    chan |-> IF "c" \in DOMAIN e /\ Has(chan, e.c) THEN chan[e.c] ELSE NewChan("?"),
    top |-> IF e.ev \in {"TTake", "TPutBegin", "TPutEnd", "TPutAck", "TCopied", "TPauseBegin", "TPauseEnd", "HStatsT", "TExit"}
               /\ Has(top, e.t) THEN top[e.t] ELSE [paused |-> "?", gone |-> FALSE],
+   copydef |-> IF e.ev = "CPutBegin" /\ Has(chan, e.c) /\ Has(copying, chan[e.c].t) /\ copying[chan[e.c].t].id = e.id
+               THEN copying[chan[e.c].t].def ELSE 0,
+   stuck |-> IF e.ev = "QSDone" THEN {<<x[2], cust[x].loc, cust[x].pri>> : x \in {y \in DOMAIN cust : y[1] = e.c /\ cust[y].pass >= 2}} ELSE {},
    client |-> IF "k" \in DOMAIN e /\ Has(cl, e.k) THEN [cl[e.k] EXCEPT !.sends = IF @ = <<>> THEN <<>> ELSE <<Head(@)>>] ELSE NewClient]
 
 HW == IF l > TLCGet(1) THEN TLCSet(1, l) /\ (IF l <= Len(Trace) THEN TLCSet(2, About) ELSE TRUE) ELSE TRUE
